@@ -90,9 +90,11 @@ class Canon(ast.NodeTransformer):
             v = n.value
             if _txt(v.left) == t:
                 new = ast.AugAssign(target=n.targets[0], op=v.op, value=v.right)
+                new._rebinds = True  # written as `x = x op y`: builds a new object, unlike a real `x op= y` on arrays / lists
                 return ast.copy_location(new, n)
             if isinstance(v.op, _COMM) and _txt(v.right) == t:
                 new = ast.AugAssign(target=n.targets[0], op=v.op, value=v.left)
+                new._rebinds = True
                 return ast.copy_location(new, n)
         return n
 
